@@ -75,12 +75,26 @@ def _sign_class(atoms) -> Optional[str]:
     return None
 
 
-def _rows(f: Fn, strict: bool = True):
+def _rows(f: Fn, strict: bool = True, read_through: bool = False):
     """(return node, guard atoms, shape) for every (return, reaching-def combination)."""
     out = []
     for r in f.returns():
         v = r.ast.value
         if v is None:
+            continue
+        if read_through:
+            v = f.expand(r.id, v)
+            local_names = [x.id for x in ast.walk(v) if isinstance(x, ast.Name) and x.id in f.lf.locals and x.id != 'self']
+            if len(set(local_names)) > 1:
+                raise Unknown(f'{f.q}: return `{text(v)}` mixes several locals')
+            if not local_names:
+                out.append((r, f.xguard_atoms(r.id), v, {}))
+                continue
+            nm = local_names[0]
+            for (site, dv) in f.lf.values_reaching(r.id, nm):
+                if dv is None:
+                    raise Unknown(f'{f.q}: `{nm}` has a non-simple definition')
+                out.append((r, f.xguard_atoms(r.id) + f.xguard_atoms(site), v, {nm: f.expand(site, dv)}))
             continue
         local_names = [x.id for x in ast.walk(v) if isinstance(x, ast.Name) and x.id in f.lf.locals and x.id != 'self']
         if not local_names:
@@ -110,7 +124,7 @@ def r1_term_rendering(R) -> None:
         'str': [NAME, ('lit', '['), IDX, ('lit', ']')],
     }
     seen: Dict[str, bool] = {}
-    for (r, atoms, v, binds) in _rows(f):
+    for (r, atoms, v, binds) in _rows(f, read_through=True):
         cls = None
         for (a, truth, _tn) in atoms:
             ts = _type_set(a)
@@ -319,6 +333,14 @@ def r3_one_template(R) -> None:
     def star_list(call: ast.Call):
         if len(call.args) == 1 and isinstance(call.args[0], ast.Starred):
             lc = call.args[0].value
+            if is_call(lc, 'list', 'tuple') and len(lc.args) == 1:
+                lc = lc.args[0]
+            if is_call(lc, 'map') and len(lc.args) == 2 and isinstance(lc.args[0], ast.Name):
+                # map(f, xs) reads [f(_t) for _t in xs]
+                tv = ast.Name(id='_t', ctx=ast.Load())
+                lc = ast.fix_missing_locations(ast.copy_location(ast.ListComp(
+                    elt=ast.Call(func=lc.args[0], args=[tv], keywords=[]),
+                    generators=[ast.comprehension(target=ast.Name(id='_t', ctx=ast.Store()), iter=lc.args[1], ifs=[], is_async=0)]), call))
             if isinstance(lc, (ast.ListComp, ast.GeneratorExp)) and len(lc.generators) == 1 and not lc.generators[0].ifs:
                 return lc
         return None
@@ -405,43 +427,47 @@ def r3_one_template(R) -> None:
         R.check(ok, f.q, 'assembly-order', 'left-to-right assembly slices the scanned text itself',
                 'forward assembly slices something other than the scanned text', where=f.where(lp))
     # parse_terms twin
-    pt = R.repo.func(f'{P}.parse_terms')
+    pt = Fn(R, f'{P}.parse_terms')
     tw = False
-    for n in ast.walk(pt.node):
-        if isinstance(n, (ast.ListComp, ast.GeneratorExp)):
-            g = n.generators[0]
-            if text(g.iter).startswith('term_re.finditer(') and len(g.ifs) == 1 and text(g.ifs[0]) == f'any({text(g.target)}.groups())':
-                tw = True
-    R.check(tw, pt.qualname, 'parse-terms-filter', 'parse_terms iterates term_re with the same filter',
-            'parse_terms does not iterate `term_re.finditer(...)` filtered by `any(m.groups())`', where=pt.where)
+    for r in pt.returns():
+        lc = pt.as_listcomp(r.id, r.ast.value) if r.ast.value is not None else None
+        if lc is None or len(lc.generators) != 1:
+            continue
+        g = lc.generators[0]
+        from fsa.match import nnf_atoms
+        conds = [(text(a_), tr) for c_ in g.ifs for (a_, tr) in nnf_atoms(c_, True)]
+        if pt.etext(r.id, g.iter).startswith('term_re.finditer(') and conds == [(f'any({text(g.target)}.groups())', True)]:
+            tw = True
+    R.check(tw, pt.q, 'parse-terms-filter', 'parse_terms iterates term_re with the same filter',
+            'parse_terms does not iterate `term_re.finditer(...)` filtered by `any(m.groups())`', where=pt.fi.where)
 
 
 def r4_index_parsing(R) -> None:
+    from rules.parser_roles import TermMatch
     q = f'{P}.parse_terms.<locals>.process_term_match'
-    f = Fn(R, q)
-    defs = f.assigns_to('index')
-    zero = [n for n in defs if isinstance(n.ast, ast.Assign) and is_const(n.ast.value, 0)]
+    tm = TermMatch(R)
+    f = tm.f
+    defs = f.vdefs(tm.idx)
     ok0 = False
-    for n in zero:
-        for (a, truth, _tn) in f.guard_atoms(n.id):
-            if truth and text(a) == 'index_ is None':
+    for d in defs:
+        if d.op is None and is_const(d.value, 0) and not isinstance(d.value.value, bool):
+            if tm.raw_is_none(tm.xfacts(d)):
                 ok0 = True
     R.check(ok0, q, 'implicit-index', 'a term without an index denotes the current period (index 0)',
-            'no `index = 0` under `index_ is None`', where=f.fi.where)
-    bad_const = [n for n in defs if isinstance(n.ast, (ast.Assign, ast.AnnAssign)) and n.ast.value is not None
-                 and isinstance(n.ast.value, ast.Constant) and n.ast.value.value not in (0, None)]
-    for n in bad_const:
-        R.violation(q, 'implicit-index-value:' + text(n.ast), f'`{text(n.ast)}`: constant index other than 0', where=f.where(n))
-    ints = [n for n in defs if isinstance(n.ast, ast.Assign) and is_call(n.ast.value, 'int')]
+            'no `index = 0` under `<INDEX group> is None`', where=f.fi.where)
+    for d in defs:
+        v = d.value
+        if d.op is None and isinstance(v, ast.Constant) and v.value not in (0, None):
+            R.violation(q, 'implicit-index-value:' + text(d.node.ast), f'`{text(d.node.ast)}`: constant index other than 0', where=f.where(d.node))
+        if d.op is None and isinstance(v, ast.UnaryOp) and isinstance(v.operand, ast.Constant) and isinstance(v.operand.value, (int, float)) and v.operand.value != 0:
+            R.violation(q, 'implicit-index-value:' + text(d.node.ast), f'`{text(d.node.ast)}`: constant index other than 0', where=f.where(d.node))
+    ints = [d for d in defs if d.op is None and is_call(d.value, 'int')]
     if R.require(q, len(ints), 'index = int(<INDEX group>)', fi=f.fi, pred=lambda x: is_call(x, 'int')):
-        for n in ints:
-            arg = n.ast.value.args[0]
-            whole = False
-            if isinstance(arg, ast.Name):
-                vals = f.lf.values_reaching(n.id, arg.id)
-                whole = len(vals) == 1 and vals[0][1] is not None and text(vals[0][1]) in ("groupdict['INDEX']", "match.group('INDEX')", "match['INDEX']")
-            R.check(whole, q, 'int-of-whole-group:' + text(n.ast.value), 'the numeric index is int() of the whole INDEX group',
-                    f'`{text(n.ast.value)}` does not convert the whole INDEX group', where=f.where(n))
+        for d in ints:
+            arg = d.value.args[0] if d.value.args else None
+            whole = arg is not None and len(d.value.args) == 1 and not d.value.keywords and tm.raw_kind(d.node.id, arg) == 'whole'
+            R.check(whole, q, 'int-of-whole-group:' + text(d.value), 'the numeric index is int() of the whole INDEX group',
+                    f'`{text(d.value)}` does not convert the whole INDEX group', where=f.where(d.node))
     # the only rejection of a numeric index is int()'s own ValueError: anything int() accepts ([+1], [ -2 ]) is an index
     for r in f.raises('ParserError'):
         par_ok = False
